@@ -155,7 +155,7 @@ def check_transition_fn(ctx, numbase=2):
                 "update", "pop", "clear", "setdefault", "popitem", "__setitem__") and (
                 self_attr(n.func.value, "operator_states") or self_attr(n.func.value, "state_counts")):
             stores.append((n, n.func.value))
-    stores.sort(key=lambda x: x[0].lineno)
+    stores.sort(key=lambda x: pos(f, x[0]))
     if not stores:
         ctx.ob(numbase, "K3", "transition() updates the operator's state and the per-state counts", False, f, f.node, construct="state update in transition()",
                detail="no store to operator_states / state_counts found in transition() (or the private helpers only it calls)")
